@@ -87,6 +87,23 @@ func init() {
 		Stub: []string{"network (simnet)", "scripted clients (independent protocol implementation)", "users", "external port squatters", "clock"},
 		Rule: "one run = one seeded history of register/close/drop/squat/probe/race operations by 1-3 scripted clients against real frps with a drawn allowPorts set and quota, checked step by step against a reference allocator and against the ports simnet really has bound; distinct = distinct event-log hash; non-trivial = history ran to its end",
 	})
+	reg(&propSpec{ID: "C04", Level: "exploration",
+		Batches: []batchSpec{
+			{Name: "l1", World: "authz", Weight: 5},
+			{Name: "l2", World: "authz", Weight: 3, Park: 0.005, Gos: 0.02},
+		},
+		Stub: []string{"network (simnet)", "scripted clients, visitors and adversaries (independent protocol implementation)", "users", "clock"},
+		Rule: "one run = real frps (token auth, drawn additional scopes, TLS and mux on/off, finite heartbeat timeout) with an honest scripted client carrying traffic and a seeded sequence of adversarial histories (bad/missing/self-exempting logins, foreign or unknown work connections, unauthenticated first messages, invalid-heartbeat sessions, floods); distinct = distinct event-log hash",
+		Assume: []string{"OIDC method, kcp/quic/websocket listeners and the ssh gateway's internal listener are not exercised"},
+	})
+	reg(&propSpec{ID: "C08", Level: "exploration",
+		Batches: []batchSpec{
+			{Name: "l1", World: "visitors", Weight: 5},
+			{Name: "l2", World: "visitors", Weight: 3, Park: 0.005, Gos: 0.02},
+		},
+		Stub: []string{"network (simnet)", "scripted clients, visitors and adversaries (independent protocol implementation)", "users", "clock"},
+		Rule: "one run = 1-3 stcp/sudp/xtcp proxies with drawn allowed-user lists and a seeded sequence of visitor connections and NAT-hole requests with right/wrong signatures, run ids (own, empty, unknown, foreign) and users, interleaved with proxy close/re-open; distinct = distinct event-log hash",
+	})
 	reg(&propSpec{ID: "C10", Level: "fault_enumeration",
 		Batches: []batchSpec{
 			{Name: "cycles", World: "release", Weight: 5},
